@@ -30,7 +30,7 @@ ALL_FAMILIES = [
     "catstr", "catcat", "catord", "box", "box_contrast", "box_levels", "box_ordered",
     "inter", "star", "slash", "power", "group", "group_slope", "group_cat",
     "group_inter_factor", "group_multi_factor", "group_transform", "group_box",
-    "resp_level", "resp_prop", "resp_cat", "resp_none", "nointercept", "extra",
+    "resp_level", "resp_prop", "resp_cat", "resp_none", "nointercept", "extra", "dotted",
 ]
 
 
@@ -211,9 +211,14 @@ class Gen:
                 opts.append((name, wgt))
         if "extra" in fam and self._has_ec:
             opts.append(("extra", 2))
+        if "dotted" in fam:
+            opts.append(("dotted", 2))
         kind = r.choices([o[0] for o in opts], [o[1] for o in opts])[0]
         if kind == "plain":
             return Item(v, [v])
+        if kind == "dotted":
+            return Item(r.choice([f"tools.f({v})", f"tools.sub.g({v})", f"center(tools.f({v}))"]), [v],
+                        fams=["dotted"])
         if kind == "extra":
             return Item(r.choice([f"I({v} * ec)", f"center({v} + ec)"]), [v], fams=["extra"])
         if kind == "center":
@@ -681,7 +686,7 @@ class Gen:
         clients = []
         for i in range(cfg["n_clients"]):
             clients.append({
-                "c0": r.choice([0.5, 1.5, 2.5]),
+                "c0": 0.5 + i + r.choice([0.0, 0.25]),  # distinct per client: uf and tools.f differ between callers
                 "depth": r.choice([0, 0, 1]),
                 "extra": r.choice([None, {"ec": 2.0 + i}, {"ec": 2.0 + i}, {}]),
             })
